@@ -42,6 +42,7 @@
 
 #![warn(missing_docs)]
 #![forbid(unsafe_code)]
+#![cfg_attr(kani, feature(allocator_api))]
 
 #[cfg(test)]
 #[path = "../tests/helpers/mod.rs"]
@@ -312,3 +313,7 @@ where
         Box::new(population)
     }
 }
+
+#[cfg(kani)]
+#[path = "/verif/kani/rosomaxa/support.rs"]
+pub(crate) mod verif_support;
